@@ -134,7 +134,8 @@ fn bedgraph_inputs() -> Vec<(String, String)> {
     }
     let mut t4 = String::new();
     let mut sizes4 = String::new();
-    for c in ["a1", "a2", "b", "c", "d10", "d2"] {
+    // (names that differ only in case: A1 / a1)
+    for c in ["A1", "a1", "a2", "b", "c", "d10"] {
         t4.push_str(&format!("{}\t0\t10\t1\n{}\t10\t50\t2.5\n", c, c));
         sizes4.push_str(&format!("{}\t100\n", c));
     }
@@ -748,6 +749,7 @@ pub fn c15_tool(t: &MergeTool, out: &mut Outcome) {
             // every other input lists its chromosomes in another order than byte order (as files
             // written from input sorted by start only do)
             chrom_ids_in_given_order: k % 2 == 1,
+            chrom_ids_reverse_of_keys: false,
             fanout: 4,
             placement: Placement::LevelOrder,
             zooms: vec![],
@@ -1023,6 +1025,7 @@ pub fn c17_tool(t: &AvgTool, out: &mut Outcome) {
         chrom_block: 64,
         chrom_level_order: false,
             chrom_ids_in_given_order: false,
+            chrom_ids_reverse_of_keys: false,
         fanout: 2,
         placement: Placement::LevelOrder,
         zooms: vec![],
@@ -1316,6 +1319,10 @@ pub fn refuse_tool_cases(quick: bool) -> Vec<RefuseTool> {
         }
     }
     // bigwigmerge: a chromosome with different sizes in two inputs cannot be merged
+    // a chromosome with more values than 100 sections hold (102 400): every thread count terminates
+    for threads in [1usize, 2] {
+        v.push(RefuseTool { bed: false, what: s("merge_valid_big"), threads, parallel: s("no"), single_pass: false });
+    }
     for what in ["merge_mismatched_sizes", "merge_mismatched_sizes_first_chrom", "merge_valid"] {
         for threads in [1usize, 4] {
             for single_pass in [false, true] {
@@ -1341,6 +1348,7 @@ fn c13_merge_tool(t: &RefuseTool, out: &mut Outcome) {
             chrom_block: 64,
             chrom_level_order: false,
             chrom_ids_in_given_order: false,
+            chrom_ids_reverse_of_keys: false,
             fanout: 4,
             placement: Placement::LevelOrder,
             zooms: vec![],
@@ -1353,8 +1361,35 @@ fn c13_merge_tool(t: &RefuseTool, out: &mut Outcome) {
         };
         std::fs::write(dir.join(name), encode(&spec).bytes).unwrap();
     };
-    mk("a.bw", &[("chr1", 100), ("chr2", 50)]);
+    if t.what == "merge_valid_big" {
+        let mut spec = EncSpec {
+            bed: false,
+            le: true,
+            compress: true,
+            version: 4,
+            chroms: vec![EncChrom { name: s("chr1"), size: 400_000, wig: (0..130u32).map(|k| WigSec::T1((0..1000u32).map(|i| (3 * (1000 * k + i), 3 * (1000 * k + i) + 2, (i % 7) as f32 + 0.5)).collect())).collect(), bed: vec![] }],
+            chrom_block: 64,
+            chrom_level_order: false,
+            chrom_ids_in_given_order: false,
+            chrom_ids_reverse_of_keys: false,
+            fanout: 64,
+            placement: Placement::LevelOrder,
+            zooms: vec![],
+            zoom_ips: 4,
+            zoom_blocks_span_chroms: false,
+            trailing_magic: true,
+            index_last: false,
+            no_summary: false,
+            autosql: None,
+        };
+        std::fs::write(dir.join("a.bw"), encode(&spec).bytes).unwrap();
+        spec.compress = false;
+        std::fs::write(dir.join("b.bw"), encode(&spec).bytes).unwrap();
+    } else {
+        mk("a.bw", &[("chr1", 100), ("chr2", 50)]);
+    }
     match t.what.as_str() {
+        "merge_valid_big" => {}
         "merge_mismatched_sizes" => mk("b.bw", &[("chr1", 100), ("chr2", 60)]),
         "merge_mismatched_sizes_first_chrom" => mk("b.bw", &[("chr1", 99)]),
         _ => mk("b.bw", &[("chr2", 50), ("chr3", 10)]),
@@ -1374,7 +1409,7 @@ fn c13_merge_tool(t: &RefuseTool, out: &mut Outcome) {
         return;
     }
     let panicked = r.code == Some(101) || r.code.is_none();
-    if t.what == "merge_valid" {
+    if t.what == "merge_valid" || t.what == "merge_valid_big" {
         if r.code != Some(0) || panicked {
             out.fail("tool_fails_on_valid_input", &tags, format!("{:?}: exit {:?} stderr {}", argv, r.code, r.stderr.chars().take(300).collect::<String>()));
         } else {
@@ -1569,6 +1604,7 @@ pub fn c06_tool(t: &InfoTool, out: &mut Outcome) {
         chrom_block: 64,
         chrom_level_order: false,
             chrom_ids_in_given_order: false,
+            chrom_ids_reverse_of_keys: false,
         fanout: 4,
         placement: Placement::LevelOrder,
         zooms: vec![],
